@@ -214,7 +214,7 @@ func propC16(r *Run, w *World) {
 				ok := len(copies) == 1 && isNilConst(ret.Results[0])
 				if ok {
 					cc := copies[0].Instr.(*ssa.Call)
-					ok = Term(cc.Call.Args[0]) == view && cc.Call.Args[1] == ssa.Value(fn.Params[1])
+					ok = Term(cc.Call.Args[0]) == view && isParamValue(cc.Call.Args[1], fn.Params[1])
 				}
 				if p.HasLit(partial) {
 					ok = ok && zeroed
@@ -233,11 +233,11 @@ func propC16(r *Run, w *World) {
 		instrsOf(fn, func(in ssa.Instruction) {
 			switch v := in.(type) {
 			case *ssa.IndexAddr:
-				if v.X == ssa.Value(fn.Params[1]) {
+				if isParamValue(v.X, fn.Params[1]) {
 					r.Fail("FromWireFormat indexes buf", v.Pos(), "the buffer is indexed directly; only copy may read it")
 				}
 			case *ssa.Slice:
-				if v.X == ssa.Value(fn.Params[1]) {
+				if isParamValue(v.X, fn.Params[1]) {
 					r.Fail("FromWireFormat slices buf", v.Pos(), "the buffer is resliced; only copy may read it")
 				}
 			}
@@ -252,7 +252,7 @@ func propC16(r *Run, w *World) {
 			ok = strings.HasPrefix(t, fmt.Sprintf("*[%d]byte(unsafe.Pointer(&local.", fullSz)) && strings.HasSuffix(t, "))[:]")
 			// the local is the receiver copy
 			sts := storesOf(fn)
-			ok = ok && len(sts) == 1 && sts[0].Val == ssa.Value(fn.Params[0])
+			ok = ok && len(sts) == 1 && isParamValue(sts[0].Val, fn.Params[0])
 		}
 		r.Check(ok, "toWireFormat", fn.Pos(), "full-size byte view of a copy of the status", "toWireFormat does not return the full-size byte view of its (copied) receiver")
 	}
